@@ -4,7 +4,7 @@
    those of ocaml/roundtrip/driver.ml (C02).
 
    input line:   M <v><style bits> <ENT tokens> <TAB> <math table>     a 2.0 model (described by harness/c14_driver.cpp) to be
-                     rewritten to 1.x:  v = 0 (1.0) | 1 (1.1); style bits = priv_first none pub_out priv_out cm us hoist
+                     rewritten to 1.x:  v = 0 (1.0) | 1 (1.1); style bits = priv_first none pub_out priv_out cm us hoist, then -<mcpos>-<rrpos>
                  D <xml tokens> <TAB> <math table>                     a document tree (python expat parse of a 1.x text)
                  N ( <nxml tokens>* )                                  the math elements of a 1.x document WITH prefixes and xmlns
                      declarations: (n s<prefix> s<ns> s<name> ( (d s<prefix> s<uri>)* ) ( (a s<prefix> s<ns> s<name> s<value>)* ) ( kids ))
@@ -212,7 +212,10 @@ let run_model line table =
   match print_model e true m with
   | None -> String.concat "\t" [ex; "TX=NONE"; cn]
   | Some _ ->
-    let x = to1x v (fun _ -> st) cm us hoist e m in
+    let (mcpos, rrpos) = (match String.split_on_char '-' bits with
+        | [_; a; b] -> (nat_of_int (int_of_string a), nat_of_int (int_of_string b))
+        | _ -> (O, O)) in
+    let x = to1x v (fun _ -> st) cm us hoist mcpos rrpos e m in
     String.concat "\t" ([ex; "TX=" ^ sxml x] @ loads e x @ [cn])
 
 let rec all_math f = function
